@@ -119,14 +119,7 @@ Section Text.
              if parses_to (nat_str m) ax then nat_str m else disp_big f (k - 1) n ax
     end.
   (* f32::to_string *)
-  Definition fdisp (x : f32) : str :=
-    if f_is_nan x then tx "NaN"
-    else if f_is_finite x && fle (f_of_i32 16777216) (fabs x) then
-      match ffmt 0 x with
-      | 45 :: d => 45 :: disp_big 39 38 (digits_val d 0) (fabs x)
-      | d => disp_big 39 38 (digits_val d 0) (fabs x)
-      end
-    else disp_small 64 0 x.
+  Definition fdisp (x : f32) : str := ffmt (-1) x.
 
   (* Display for Node / Edge *)
   Definition node_text (id st : Z) : str :=
